@@ -113,7 +113,9 @@ def tiling(prog, chk):
 def lookups(prog, chk):
     """raw_attribute / attribute / has_attribute are first-match searches over iter_attributes()"""
     from dtable import instrumented_body
-    for fn, adaptor in (("raw_attribute", "find"), ("attribute", "find"), ("has_attribute", "any")):
+    from rules import police_e2
+    police_e2.lookups(prog, chk)        # raw_attribute / has_attribute: decided semantically over a listed iterator
+    for fn, adaptor in (("attribute", "find"),):
         b, ups = instrumented_body(prog, MSG + fn)
         og = Origins(prog, b)
         found = False
